@@ -690,6 +690,19 @@ impl VSys
         fs.log_event(Who::User, Op::RemoveFile, path, "", true, "", None, None);
     }
 
+    /* like `mv`: the file keeps its modification time and permission */
+    pub fn user_move(&self, from : &str, to : &str) -> bool
+    {
+        let mut fs = self.lock();
+        let ino = match fs.disk.ino(from) { Some(i) => i, None => return false };
+        let t = norm(to);
+        fs.disk.mkdirs(&parent_of(&t));
+        fs.disk.nodes.remove(&norm(from));
+        fs.disk.nodes.insert(t, Node::File(ino));
+        fs.log_event(Who::User, Op::Rename, from, to, true, "", None, None);
+        true
+    }
+
     pub fn user_mkdirs(&self, path : &str)
     {
         let mut fs = self.lock();
@@ -1005,9 +1018,9 @@ impl System for VSys
         }
 
         let mut results = vec![];
-        for line in command_script.lines.iter()
+        for (step_index, line) in command_script.lines.iter().enumerate()
         {
-            results.push(Ok(crate::verif::model::run_script_line(self, line)));
+            results.push(Ok(crate::verif::model::run_script_line(self, line, step_index)));
         }
 
         {
